@@ -1,7 +1,7 @@
 (** C12 — errors are classified and located truthfully (partial: the rendered message and the
     classification of search errors are decided by correspondence).
     Statements only. *)
-From JP Require Import Base F64 Value Sig Functions Interp Lexer Parser Wire Proofs.CallProof Proofs.ErrProof Proofs.InterpFacts Proofs.ParseErrProof Proofs.SearchErrProof.
+From JP Require Import Base F64 Value Sig Functions Interp Lexer Parser Wire Proofs.CallProof Proofs.ErrProof Proofs.InterpFacts Proofs.ParseErrProof Proofs.SearchErrProof Render Proofs.RenderProof.
 
 (** Every failure of compile is a parse error: the lexer (incl. the embedded JSON reader) and the parser only ever build parse errors. *)
 Theorem C12_compile_errors_are_parse_errors : forall s e, parse s = Err e -> exists p, e = EParse p.
@@ -56,3 +56,16 @@ Print Assumptions C12_offset_restored.
 Example C12_example :
   line_col [34; 233; 34; 32; 46; 46] 5 = (0, 4) /\ line_col [97; 10; 233; 10; 46] 5 = (2, 0).
 Proof. vm_compute. split; reflexivity. Qed.
+
+(** The rendered message points where the coordinates say: for an error at the
+    boundary between [pre] and [post] the location block printed by Display is the
+    expression up to the end of the line holding the boundary, then a line of
+    exactly as many spaces as there are characters between the start of that line
+    and the boundary, a caret, and then the remaining lines — so the caret stands
+    under the first character of [post] (any newlines, any multi-byte characters,
+    the end of the expression included). *)
+Theorem C12_rendered_caret_under_offset : forall pre post,
+  let '(l, c) := line_col (pre ++ post) (byte_len pre) in
+  location_block (pre ++ post) l c = pre ++ first_line post ++ 10 :: carat (last_line pre 0) ++ after_first_line post.
+Proof. exact rendered_caret_matches_offset. Qed.
+Print Assumptions C12_rendered_caret_under_offset.
